@@ -775,7 +775,7 @@ def inline_fresh_helpers(repo: Repo, max_inlines: int = 200) -> list[str]:
     a limitation, see DESIGN 9."""
     from .source import clone
     done: list[str] = []
-    prot = _protected_names()
+    prot = set(_protected_names())      # (a private copy: the loop below adds to it)
     serial = 0
     queue: list = []
     passes = 0
